@@ -782,6 +782,9 @@ def _replay(prop_id, mod, path):
     with open(path) as fh:
         w = json.load(fh)
     submap = {s.name: s for s in mod.SUBCHECKS}
+    if w.get('subcheck') not in submap:
+        print(f"HARNESS ERROR: replay file is for sub-check {w.get('subcheck')!r}, which {prop_id} does not have", file=sys.stderr)
+        return 2
     sub = submap[w['subcheck']]
     ACTIVE_KNOWN.clear()
     if isinstance(w['case'], dict) and w['case'].get('_crash'):
